@@ -63,42 +63,54 @@ def replay(rp):
     return not bad
 
 
+def _one_config(args):
+    repo, cfg, maxlen, ntok = args
+    if repo not in sys.path:
+        sys.path.insert(0, repo)
+    from pyvc.fixtures_concrete import provider_class
+    import logging
+    logging.disable(logging.CRITICAL)
+    p = provider_class(cfg)()
+    failures, samples, seen = [], [], set()
+    evaluations = 0
+    strings = itertools.chain(
+        (("".join(t), len(t)) for n in range(0, maxlen + 1) for t in itertools.product(ALPHABET, repeat=n)),
+        (("".join(t), 0) for n in range(maxlen, ntok + 1) for t in itertools.product(TOKENS, repeat=n)))
+    for x, n in strings:
+        evaluations += 1
+        out = []
+        try:
+            _laws(p, x, out)
+        except Exception as e:            # the helpers are total on strings
+            out.append(("no exception", "%s: %s on %r" % (type(e).__name__, str(e)[:80], x)))
+        for law, detail in out:
+            key = (cfg["name"], law)
+            if key in seen:
+                continue
+            seen.add(key)
+            failures.append({"what": "%s: %s: %s" % (cfg["name"], law, detail),
+                             "witness": {"config": cfg["name"], "path": x, "law": law, "detail": detail},
+                             "replay_data": {"config": cfg["name"], "path": x, "law": law,
+                                             "replay_module": "contracts.bounded_paths.replay"}})
+        if len(samples) < 1 and n == 3:
+            samples.append({"config": cfg["name"], "path": x})
+    return evaluations, failures, samples
+
+
 def run(repo, tier, seed):
     if repo not in sys.path:
         sys.path.insert(0, repo)
     from pyvc import fixtures as F
-    from pyvc.fixtures_concrete import provider_class
-    import logging
-    logging.disable(logging.CRITICAL)
+    import multiprocessing
     maxlen = 5      # thorough widens the conventions (all 12) and the token sequences (7), not the raw length
-    cfgs = [F.PROVIDER_CONFIGS[i] for i in F.QUICK_PROVIDER_CONFIGS] if tier == "quick" else F.PROVIDER_CONFIGS
-    failures, samples, seen = [], [], set()
-    evaluations = 0
     ntok = 6 if tier == "quick" else 7
-    for cfg in cfgs:
-        p = provider_class(cfg)()
-        strings = itertools.chain(
-            (("".join(t), len(t)) for n in range(0, maxlen + 1) for t in itertools.product(ALPHABET, repeat=n)),
-            (("".join(t), 0) for n in range(maxlen, ntok + 1) for t in itertools.product(TOKENS, repeat=n)))
-        for x, n in strings:
-            if True:
-                evaluations += 1
-                out = []
-                try:
-                    _laws(p, x, out)
-                except Exception as e:            # the helpers are total on strings
-                    out.append(("no exception", "%s: %s on %r" % (type(e).__name__, str(e)[:80], x)))
-                for law, detail in out:
-                    key = (cfg["name"], law)
-                    if key in seen:
-                        continue
-                    seen.add(key)
-                    failures.append({"what": "%s: %s: %s" % (cfg["name"], law, detail),
-                                     "witness": {"config": cfg["name"], "path": x, "law": law, "detail": detail},
-                                     "replay_data": {"config": cfg["name"], "path": x, "law": law,
-                                                     "replay_module": "contracts.bounded_paths.replay"}})
-                if len(samples) < 3 and n == 3:
-                    samples.append({"config": cfg["name"], "path": x})
+    cfgs = [F.PROVIDER_CONFIGS[i] for i in F.QUICK_PROVIDER_CONFIGS] if tier == "quick" else F.PROVIDER_CONFIGS
+    ctx = multiprocessing.get_context("fork")
+    with ctx.Pool(min(len(cfgs), 12)) as pool:
+        parts = pool.map(_one_config, [(repo, c, maxlen, ntok) for c in cfgs])
+    evaluations = sum(p_[0] for p_ in parts)
+    failures = [f for p_ in parts for f in p_[1]]
+    samples = [s_ for p_ in parts for s_ in p_[2]][:3]
     return {"name": "normalize_path_body_and_split_join_equivalence",
             "bound": "every string of length <= %d over %d characters (%s) and every sequence of %d..%d tokens from (%s), for %d provider path conventions"
                      % (maxlen, len(ALPHABET), " ".join(repr(c) for c in ALPHABET), maxlen, ntok, " ".join(repr(c) for c in TOKENS), len(cfgs)),
